@@ -9,7 +9,7 @@
    setOutcome calls (failedToStart / setOutcome / failed / assert / failRemaining) and of
    recordSideband calls.  client_runner.go is the scripted interface, not modelled.
    The loop is structural recursion over the batch: no fuel.  No proofs here. *)
-From V Require Export Base.
+From V Require Export Base C11_Consts C11_Proc.
 Open Scope N_scope.
 
 (* ---------- outcomes ---------- *)
@@ -66,7 +66,10 @@ Record server := mkServer {
                                 returned (Some 0: while the response is being read) *)
   s_refsrv : bool;           (* isReferenceServer: stderr is piped and parsed *)
   s_refcli : bool;           (* isReferenceClient: response feedback is recorded *)
-  s_stderr : bytes }.
+  s_stderr : bytes;
+  s_clean : bool }.          (* how it exits at s_dead: true = exit status 0 (result() is nil),
+                                false = with an error.  whenDone's action ignores the result:
+                                the model does too — both flavours are a dead server *)
 
 (* ---------- the stderr side-band goroutine ---------- *)
 (* bufio.Reader.ReadString('\n') until error: complete lines WITH their newline, then the
@@ -335,16 +338,17 @@ Definition sx_kind (o : option okind) : sx :=
      | Some KCouldNotRun => 4 | Some KNoResult => 5 | Some KCbErr => 6
      end)%Z.
 
-(* (refsrv refcli tls) start wfault (resp) dead stderr chunk wait (cases)
+(* (refsrv refcli tls [clean]) start wfault (resp) dead stderr chunk wait (cases)
      -> ((per name: kind count sideband) returned started asked alive ends (sent) (forwarded))
    `chunk` (read sizes of the fake stderr) and `wait` (a marker line the harness waits for
    before it reads the side-band) only steer the Go side. *)
 Definition run_c11_batch (args : list sx) : sx :=
   or_bad (match args with
-  | [L [rs; rc; tls]; st; wf; rp; dd; B se; I _; B _; cs] =>
+  | [L (rs :: rc :: tls :: cl); st; wf; rp; dd; B se; I _; B _; cs] =>
     do rs <- un_bool rs; do rc <- un_bool rc; do tls <- un_bool tls; do st <- un_bool st;
+    do cl <- (match cl with [] => Some false | [c] => un_bool c | _ => None end);
     do wf <- un_wfault wf; do rp <- un_resp rp; do dd <- un_dead dd; do cs <- un_listof un_case cs;
-    let sv := mkServer st wf rp tls dd rs rc se in
+    let sv := mkServer st wf rp tls dd rs rc se cl in
     let r := run_batch false sv cs in
     let sb := r.(r_sbs) ++ r.(r_sbc) in
     let names := dedup_first (map c_name cs ++ map c_report cs) [] in
@@ -355,5 +359,71 @@ Definition run_c11_batch (args : list sx) : sx :=
              L (map B r.(r_sent)); L (map B r.(r_fwd)) ])
   | _ => None end).
 
+(* ---------- stopping the server process: process.go under runTestCasesForServer ---------- *)
+(* every serverProcess.abort() of the function is followed by serverProcess.result() *)
+Definition batch_stop_time (P : params) (pk : pkind) (r : result) : option N :=
+  if r.(r_started) then stop_time P pk r.(r_aborts) else Some 0.
+
+(* the durations the compiled code uses (C11_Consts.v) *)
+Definition code_params (wd : N) : params := mkP c11_grace_ms c11_grace2_ms wd true.
+(* the harness's patience: three times the longest wait of abort's goroutine *)
+Definition patience : N := 3 * (c11_grace_ms + c11_grace2_ms).
+Definition in_time (o : option N) : bool := match o with Some t => t <=? patience | None => false end.
+
+Fixpoint plain_cases (n : nat) : list case :=
+  match n with
+  | O => []
+  | S m => plain_cases m ++ [let nm := bs "P/" ++ [48 + N.of_nat m] in mkCase nm true APass 0 nm []]
+  end.
+Definition plain_server : server := mkServer true WOk (RValid false) false None false false [] false.
+
+(* mode aborts (script) -> (in-time class child-gone forced-closes passes)
+   mode 0: a real OS process through runCommand (WaitDelay: the code's)
+        1: the methods of cmdProcess over a scripted operating system (WaitDelay: the script's)
+        2: localProcess through runInProcess
+        3, 4: runTestCasesForServer over 1 resp. 2 with a batch of n passing cases *)
+Definition run_c11_proc (args : list sx) : sx :=
+  or_bad (match args with
+  | [I mode; I k; sc] =>
+    do ps <- un_pscript sc;
+    let ch := child_of ps in
+    let lc := lchild_of ps in
+    let out (it : bool) (c : option rclass) (dead : bool) (force : nat) (np : nat) :=
+      ret (L [sx_bool it; match c with Some c => sx_class c | None => I 0%Z end; sx_bool dead; sx_nat force; sx_nat np]) in
+    let batch (P : params) (pk : pkind) :=
+      let cs := plain_cases ps.(ps_n) in
+      let r := run_batch false plain_server cs in
+      let t := batch_stop_time P pk r in
+      let np := length (filter (fun c => match final c.(c_name) r.(r_log) with
+                                          | Some KPass => Nat.eqb (count c.(c_name) r.(r_log)) 1 | _ => false end) cs) in
+      let dead := match pk, t with
+                  | PCmd _, _ => (stop P pk).(pr_dead)
+                  | PLocal l, Some t => l.(lc_pre) || match l.(lc_cancel) with Some d => d <=? t | None => false end
+                  | _, None => false
+                  end in
+      out (in_time t) None dead (stop P pk).(pr_force) np in
+    if (k <? 1)%Z || (3 <? k)%Z then None
+    else if (mode =? 0)%Z then
+      if negb (ps.(ps_wd) =? 0) || negb (ps.(ps_cmode) =? 0) || negb ps.(ps_killable) || negb (Nat.eqb ps.(ps_n) 0)
+         || (ps.(ps_pre) && ps.(ps_holds)) then None
+      else let r := cmd_stop (code_params c11_wait_delay_ms) ch in
+           out (in_time r.(pr_ret)) (Some r.(pr_class)) r.(pr_dead) 0%nat 0%nat
+    else if (mode =? 1)%Z then
+      if ps.(ps_holds) || negb (Nat.eqb ps.(ps_n) 0) then None
+      else let r := cmd_stop (code_params ps.(ps_wd)) ch in
+           out (in_time r.(pr_ret)) (Some r.(pr_class)) r.(pr_dead) r.(pr_force) 0%nat
+    else if (mode =? 2)%Z || (mode =? 4)%Z then
+      if negb (ps.(ps_wd) =? 0) || negb (ps.(ps_cmode) =? 0) || ps.(ps_killable) || ps.(ps_holds) || (ps.(ps_tmode) =? 1)
+      then None
+      else if (mode =? 2)%Z then
+        if negb (Nat.eqb ps.(ps_n) 0) then None
+        else let r := local_stop (code_params 0) lc in
+             out (in_time r.(pr_ret)) (Some r.(pr_class)) r.(pr_dead) 0%nat 0%nat
+      else if ps.(ps_pre) then None else batch (code_params 0) (PLocal lc)
+    else if (mode =? 3)%Z then
+      if ps.(ps_holds) || ps.(ps_pre) then None else batch (code_params ps.(ps_wd)) (PCmd ch)
+    else None
+  | _ => None end).
+
 Definition c11_table : list (bytes * (list sx -> sx)) :=
-  [ (bs "c11.batch", run_c11_batch) ].
+  [ (bs "c11.batch", run_c11_batch); (bs "c11.proc", run_c11_proc) ].
